@@ -139,6 +139,23 @@ Definition serve (fs : fsys) (root : list elem) (meth name ae def : bytes) (comp
     | (_, _) => {| r_status := 500; r_body := []; r_clen := []; r_cenc := [] |}
     end.
 
+(* staticFileHandler: product lookup and first rule whose condition matches.
+   route: 0 = the product has a rule list [rule that does not match; BROWSE rule (root, def) that matches],
+          1 = the product has no rule list, 2 = no rule of the list matches.   None = BfeHandlerGoOn *)
+Definition static_handler (route : Z) (fs : fsys) (root : list elem) (meth name ae def : bytes) (compress : bool)
+  : option resp :=
+  if route =? 0 then Some (serve fs root meth name ae def compress) else None.
+(* module counters touched by one request: FileBrowseNotExist, FileBrowseFallbackDefault (increments) *)
+Definition counters (fs : fsys) (root : list elem) (meth name ae def : bytes) (compress : bool) : Z * Z :=
+  if negb (bytes_eqb meth GET) && negb (bytes_eqb meth HEAD) then (0, 0)
+  else
+    let encs := if compress then accept_list ae else [] in
+    match fst (new_static_file fs root name encs) with
+    | RNotExist => (1, match def with [] => 0 | _ => 1 end)
+    | RDir => (0, match def with [] => 0 | _ => 1 end)
+    | _ => (0, 0)
+    end.
+
 Example clean_ex1 : clean_name [47;97;47;46;46;47;46;46;47;98] = [[98]].   (* "/a/../../b" -> /b *)
 Proof. reflexivity. Qed.
 Example has_token_ex1 : has_token [71;90;73;80;44;32;98;114] GZIP = true.       (* "GZIP, br" *)
